@@ -96,7 +96,9 @@ func (impl Implementation) Dlatdf(job lapack.MaximizeNormXJob, n int, z []float6
 		bi.Dcopy(n, work[n:], 1, xm, 1)
 
 		// Compute rhs.
-		impl.Dlaswp(1, xm, 1, 0, n-2, ipiv[:n-1], -1)
+		if n > 1 {
+			impl.Dlaswp(1, xm, 1, 0, n-2, ipiv[:n-1], -1)
+		}
 		tmp := 1 / bi.Dnrm2(n, xm, 1)
 		bi.Dscal(n, tmp, xm, 1)
 		bi.Dcopy(n, xm, 1, xp, 1)
@@ -113,7 +115,9 @@ func (impl Implementation) Dlatdf(job lapack.MaximizeNormXJob, n int, z []float6
 	}
 
 	// Apply permutations ipiv to rhs
-	impl.Dlaswp(1, rhs, 1, 0, n-2, ipiv[:n-1], 1)
+	if n > 1 {
+		impl.Dlaswp(1, rhs, 1, 0, n-2, ipiv[:n-1], 1)
+	}
 
 	// Solve for L-part choosing rhs either to +1 or -1.
 	pmone := -1.0
@@ -168,7 +172,9 @@ func (impl Implementation) Dlatdf(job lapack.MaximizeNormXJob, n int, z []float6
 	}
 
 	// Apply the permutations jpiv to the computed solution (rhs).
-	impl.Dlaswp(1, rhs, 1, 0, n-2, jpiv[:n-1], -1)
+	if n > 1 {
+		impl.Dlaswp(1, rhs, 1, 0, n-2, jpiv[:n-1], -1)
+	}
 
 	// Compute and return the updated sum of squares.
 	return impl.Dlassq(n, rhs, 1, rdscal, rdsum)
